@@ -106,6 +106,23 @@ type frame struct {
 	site   *CallSite
 	loops  []*loopCtx // loops currently being summarised in this frame (innermost last)
 	depth  int
+	tsub   map[*types.TypeParam]types.Type // inside a generic callee reached through an instantiation wrapper: its type parameters -> the caller's type arguments
+}
+
+// substT replaces a callee's type parameter by the type argument the (generic) caller passed for it.
+func (f *frame) substT(t types.Type) types.Type {
+	for i := 0; i < 4 && t != nil && f.tsub != nil; i++ {
+		tp, ok := t.(*types.TypeParam)
+		if !ok {
+			break
+		}
+		r, ok := f.tsub[tp]
+		if !ok || r == t {
+			break
+		}
+		t = r
+	}
+	return t
 }
 
 func (f *frame) clone() *frame {
@@ -191,6 +208,9 @@ func (e *Engine) addEvent(st *state, fr *frame, ev *Event, instr ssa.Instruction
 		}
 	}
 	ev.NCond = len(st.conds)
+	if ev.IntType != nil {
+		ev.IntType = fr.substT(ev.IntType)
+	}
 	st.events = append(st.events, ev)
 	return ev
 }
@@ -462,6 +482,13 @@ func knownNonNil(st *state, v *Val) bool {
 	if v.Op == "param" && v.Type != nil {
 		if _, ok := v.Type.Underlying().(*types.Pointer); ok {
 			return true // axiom 6: receivers and buffers passed by the caller are non-nil
+		}
+	}
+	if v.Op == "tassert" && v.Name == "" && len(v.Args) == 1 {
+		// the result of a checked assertion that succeeded on this path holds a value (x.(T) with ok == true implies x != nil)
+		okKey := (&Val{Op: "tassert", Name: "ok", Args: v.Args}).Key()
+		if t, ok := st.facts[okKey]; ok && t {
+			return true
 		}
 	}
 	ne := (&Val{Op: "binop", Name: "!=", Args: []*Val{v, mkNil(v.Type)}}).Key()
